@@ -137,12 +137,12 @@ def plan_c12(tier):
     )
 
 
-HMC_ROOTS = ["0,0", "1,4", "2,4", "2,1", "3,4", "3,1", "4,4", "5,4", "6,4", "7,0", "8,0", "9,4", "9,1", "10,4", "10,1", "11,4", "12,4", "13,4", "14,4", "15,126", "15,64", "16,127", "17,4", "18,4", "11,1024", "19,4", "20,4", "21,4", "22,1024", "23,4"]
-ROOT_WEIGHT = {"23,4": 24, "22,1024": 20, "20,4": 4, "21,4": 4, "19,4": 28, "11,1024": 30, "14,4": 28, "15,126": 25, "15,64": 25, "9,4": 24, "18,4": 22, "12,4": 18, "11,4": 17, "10,4": 17, "9,1": 14, "10,1": 12, "8,0": 8, "17,4": 8, "16,127": 8, "3,4": 7, "2,4": 5, "4,4": 5, "6,4": 5, "5,4": 4, "13,4": 1, "0,0": 1, "1,4": 2, "7,0": 3, "2,1": 3, "3,1": 4}
-QUICK_SHALLOW = {"20,4": 3, "21,4": 3, "22,1024": 3, "23,4": 3, "19,4": 3, "11,1024": 3, "4,4": 3, "6,4": 3, "11,4": 3, "12,4": 3, "15,64": 3}
+HMC_ROOTS = ["0,0", "1,4", "2,4", "2,1", "3,4", "3,1", "4,4", "5,4", "6,4", "7,0", "8,0", "9,4", "9,1", "10,4", "10,1", "11,4", "12,4", "13,4", "14,4", "15,126", "15,64", "16,127", "17,4", "18,4", "11,1024", "19,4", "20,4", "21,4", "22,1024", "23,4", "24,4", "25,4"]
+ROOT_WEIGHT = {"25,4": 26, "24,4": 4, "23,4": 24, "22,1024": 20, "20,4": 4, "21,4": 4, "19,4": 28, "11,1024": 30, "14,4": 28, "15,126": 25, "15,64": 25, "9,4": 24, "18,4": 22, "12,4": 18, "11,4": 17, "10,4": 17, "9,1": 14, "10,1": 12, "8,0": 8, "17,4": 8, "16,127": 8, "3,4": 7, "2,4": 5, "4,4": 5, "6,4": 5, "5,4": 4, "13,4": 1, "0,0": 1, "1,4": 2, "7,0": 3, "2,1": 3, "3,1": 4}
+QUICK_SHALLOW = {"25,4": 3, "20,4": 3, "21,4": 3, "22,1024": 3, "23,4": 3, "19,4": 3, "11,1024": 3, "4,4": 3, "6,4": 3, "11,4": 3, "12,4": 3, "15,64": 3}
 HMC_RULE = ("explicit-state search by replay over the real crate under the oracle allocator: states = canonical keys of the concrete handle pool (representation, offsets, lengths, capacities, "
             "reference counts, control blocks, allocation sizes, lineage; modulo address renaming and slot permutation), transitions = every enabled operation of the alphabet with every boundary argument "
-            "(0,1,len-1,len,cap-1,cap,alloc-len, +1 variants, usize::MAX / isize::MAX class) on every live handle, from each of 30 roots (all representations, payload 0/1/4; uniquely held shared handles with a front offset; capacity-128, capacity-1024 and capacity-32768 buffers where size-relative policies and the original-capacity classes are active; a 1024-byte Vec-backed Bytes; owners that are plain Vecs or answer as_ref() differently per call), "
+            "(0,1,len-1,len,cap-1,cap,alloc-len, +1 variants, usize::MAX / isize::MAX class) on every live handle, from each of 32 roots (all representations, payload 0/1/4; uniquely held shared handles with a front offset; capacity-128, capacity-1024 and capacity-32768 buffers where size-relative policies and the original-capacity classes are active; a 1024-byte Vec-backed Bytes; owners that are plain Vecs, answer as_ref() differently per call or panic in their destructor; a full shared-form BytesMut), "
             "<= 3 handles, second root allowed; after every transition all oracles run and a drop-all epilogue checks the ledger. distinct_nontrivial = transitions that changed the canonical state")
 
 
@@ -158,9 +158,11 @@ def hmc_workers(prop, depth, profiles, parities, flags, roots=None, alphabet="fu
     return ws
 
 
-def plan_hmc(prop, flags_quick, flags_thorough, oracle_text, profiles_quick=("rel",), both_profiles_thorough=True, with_loom=False, with_miri=False, bufmut_stage=False):
+def plan_hmc(prop, flags_quick, flags_thorough_in, oracle_text, profiles_quick=("rel",), both_profiles_thorough=True, with_loom=False, with_miri=False, bufmut_stage=False):
     def plan(tier):
+        flags_thorough = list(flags_thorough_in)
         if tier == "thorough":
+            flags_thorough = flags_thorough + ["--rare-last"]
             ws = hmc_workers(prop, 5, ["rel", "dbg"] if both_profiles_thorough else ["rel"], ["even", "odd"], flags_thorough)
             for alph, d in (("bytes", 7), ("bytesmut", 7), ("conv", 8)):
                 ws += hmc_workers(prop, d, ["rel"], ["even", "odd"], flags_thorough + ["--no-ooc", "--no-huge"], roots=["2,4", "3,4", "5,4", "9,4", "10,4"], alphabet=alph)
@@ -173,7 +175,7 @@ def plan_hmc(prop, flags_quick, flags_thorough, oracle_text, profiles_quick=("re
                 # debug-assertions / overflow-check build: every root one level less, the offset-carrying BytesMut roots in full
                 ws += hmc_workers(prop, 3, ["dbg"], ["even", "odd"], flags_quick)
                 ws += hmc_workers(prop, 4, ["dbg"], ["even"], flags_quick, roots=["9,4", "14,4"])
-            ws += hmc_workers(prop, 4, ["rel"], ["adjacent"], flags_quick, roots=["2,4", "8,0", "9,4", "10,4", "10,1", "14,4"])
+            ws += hmc_workers(prop, 4, ["rel"], ["adjacent"], flags_quick, roots=["2,4", "8,0", "9,4", "10,4", "10,1", "14,4", "25,4"], extra_depth={"9,4": 3, "14,4": 3, "25,4": 3})
         # longest-processing-time-first: heavy roots start first so that no long worker is left for the end
         def cost(w):
             a = w["args"]
@@ -190,9 +192,14 @@ def plan_hmc(prop, flags_quick, flags_thorough, oracle_text, profiles_quick=("re
         extra = None
         if with_loom:
             import loomrun
+            import sigprobe
             sets = [dict(set="quick", shards=16)] if tier != "thorough" else [dict(set="quick", shards=16), dict(set="full", shards=64, preemptions=3)]
             def extra(vc, t):
                 r, e = loomrun.run(vc, prop, t, sets)
+                if bufmut_stage:
+                    # auxiliary (not a model-checking result): ill-typed safe programs must stay ill-typed
+                    r3, e3 = sigprobe.run(vc, prop)
+                    r, e = r + r3, e + e3
                 if with_miri and t == "thorough":
                     import mirirun
                     roots0 = [x for x in HMC_ROOTS if x not in ("15,64",)]
@@ -202,7 +209,7 @@ def plan_hmc(prop, flags_quick, flags_thorough, oracle_text, profiles_quick=("re
                 return r, e
         return dict(workers=ws, extra=extra, level="model_checking", distinct_is_max=False, rule=HMC_RULE + "; oracle of this check: " + oracle_text + (
                     "; additionally the loom program family of C05 (concurrent histories) is run and its violations of this property are reported here" if with_loom else ""),
-                    bounds="quick: depth 4 (root + 4 operations), full alphabet incl. out-of-contract arguments, both parities, release profile (5 roots whose representation coincides with another root one level less; + 6 roots in the adjacent-arena allocator configuration; checks that name profiles add the debug-assertions build at depth 3 and at depth 4 for the offset-carrying BytesMut roots); thorough: depth 5 in rel+dbg x even+odd plus focused alphabets (Bytes-only, BytesMut structure, conversions) to depth 7-8",
+                    bounds="quick: depth 4 (root + 4 operations), full alphabet incl. out-of-contract arguments (the rarely used entry points - write_char, the UninitSlice API, iterator adaptors, tuple-bound slices, exact-looking lying size hints, zero-fill resize, a second chunk_mut before the commit - as the first or second operation, the states they reach explored to the full depth), both parities, release profile (5 roots whose representation coincides with another root one level less; + 6 roots in the adjacent-arena allocator configuration; checks that name profiles add the debug-assertions build at depth 3 and at depth 4 for the offset-carrying BytesMut roots); thorough: depth 5 in rel+dbg x even+odd plus focused alphabets (Bytes-only, BytesMut structure, conversions) to depth 7-8",
                     assumptions=["buffers <= 6 bytes; arguments are the listed boundary values", "data independence: byte values are not part of the state key (they are compared with the model on every execution)",
                                  "the hook descriptors are used only for the state key, never as an oracle"])
     return plan
@@ -286,6 +293,8 @@ def plan_c17(tier):
         ws = sharded("bufmc", "c17", "thorough", 16, ["rel", "dbg"], ["even", "odd"])
     else:
         ws = sharded("bufmc", "c17", "thorough", 16, ["rel"], ["even"]) + sharded("bufmc", "c17", "quick", 4, ["dbg"], ["odd"])
+    # the serde side (feature build): sequences beyond the 4096-element capacity cap of visit_seq with honest and lying length hints
+    ws += [W("bufmc", ["c17s", "--parity", par], feat="serde", profile=prof) for par in ("even", "odd") for prof in (("rel", "dbg") if tier == "thorough" else ("rel",))]
     return dict(
         workers=ws, level="fault_enumeration", distinct_is_max=True,
         rule="fault enumeration: scripted misbehaving safe trait impls (Buf: remaining() +-1, +-7, 0, usize::MAX/2, usize::MAX or panicking; chunk() empty / shorter / longer-than-admitted / panicking; advance() ignored / partial / panicking; "
